@@ -81,5 +81,6 @@ func (s *Stream) Rewind()                        { panic("symbolic only") }
 func (s *Stream) AtStart() bool                  { panic("symbolic only") }
 func (s *Stream) FailSeek(on bool)               { panic("symbolic only") }
 func (s *Stream) Tree() *J                       { panic("symbolic only") }
+func (s *Stream) SetOverlongLine(i int)           { panic("symbolic only") }
 func (s *Stream) SetLayoutFirstByte(b int)       { panic("symbolic only") }
 func (s *Stream) Wrote() bool                    { panic("symbolic only") }
